@@ -2,7 +2,7 @@
     marked Killed all its children have been released (children first), and so has its whole subtree. *)
 From Coq Require Import List NArith ZArith Bool Lia.
 From Vivid Require Import Base.Tm Actor.Core Actor.CoreRun Actor.SpecLife Actor.ProofsLife Actor.ProofsLifeInv Actor.ProofsLifeSum
-  Actor.ProofsLifePhase Actor.ProofsLifeGen Actor.ProofsLifeTree Actor.ProofsLifeReg Actor.ProofsLifeTaint.
+  Actor.ProofsLifePhase Actor.ProofsLifeGen Actor.ProofsLifeTree Actor.ProofsLifeReg Actor.ProofsLifeTaint Actor.ProofsLifeLog.
 Import ListNotations.
 Local Open Scope N_scope.
 #[local] Strategy 100 [run_atomic FUEL].
@@ -394,7 +394,7 @@ Proof.
         eexists. split; [exact Hnewa|]. cbn [new_actor a_path]. exact Hlk.
       * destruct (exec1_summary _ t _ i s1 front x0 Hsp He Hg0) as (x' & Ha & _). rewrite Ha, length_upd in Hlt. lia.
   - rewrite Hfin. destruct Hps1 as (-> & _). apply (reg_exec1_nonempty _ _ _ _ _ _ _ He Hg0). destruct Hps0 as (-> & _). exact H2.
-  - intros y Hy. rewrite Hfin in Hy. destruct Hps1 as (_ & Hp1). specialize (Hp1 0%nat). rewrite Hy in Hp1.
+  - intros y Hyy. rewrite Hfin in Hyy. destruct Hps1 as (_ & Hp1). specialize (Hp1 0%nat). rewrite Hyy in Hp1.
     destruct (get s1 0) as [y1|] eqn:Hy1; [|discriminate Hp1]. cbn [option_map] in Hp1. inversion Hp1 as [Hpp1]. rewrite Hpp1.
     destruct (get s 0) as [xr|] eqn:Hxr.
     2:{ exfalso. pose proof (get_lt _ _ _ Hy1) as Hl1. unfold get in Hxr. apply nth_error_None in Hxr.
@@ -410,4 +410,101 @@ Proof.
       rewrite Hs0 in Hg1'. rewrite Hy1 in Hg1'. inversion Hg1'; subst x1'. destruct Hc' as (-> & _). exact Hp00.
     + rewrite <- Hp00. f_equal. apply (f_equal Some) in Hp00.
       pose proof (exec1_keeps _ _ _ _ _ _ 0%nat x00 He (fun E => Hs0 (eq_sym E)) Hx00) as Hk. congruence.
-Abort.
+Qed.
+
+Theorem T3_reachable s : reachable s -> T3 s.
+Proof.
+  apply (Q_reachable T3).
+  - intros s0 s' Hm. apply T3_keep; [apply psame_mb; exact Hm|]. intros c. apply rel_mb. exact Hm.
+  - intros s0 t i rest front HI HT Hp Hs Hf. apply (T3_keep s0); [apply psame_set_pend| |exact HT].
+    intros c Hr. apply (rel_pop c s0 t i rest front HI Hr Hp Hs Hf).
+  - apply T3_astep.
+  - intros s0 a x sq uq pa co cu HI HT Hg Hb Hpx Hco Hcu. apply (T3_keep s0); [apply (psame_set_actor _ _ x); [exact Hg|reflexivity]| |exact HT].
+    intros c Hr. apply (rel_cons c s0 a x sq uq pa co cu HI Hr Hg Hb Hpx Hco Hcu).
+  - intros s0 a x e s1 ins HI HT He0 Hg Hc Hpx x0 Hd. apply (T3_keep s0); [| |exact HT].
+    + assert (Hg0 : get (set_actor s0 a x0) a = Some x0) by apply (get_set_actor_same _ _ _ _ Hg).
+      destruct (dispatch_frame _ _ _ _ _ _ Hg0 Hd) as (y & Hact & _ & Hreg & _ & _ & _ & _ & Hpath & _).
+      assert (Hg1 : get s1 a = Some y) by (unfold get; rewrite Hact; apply (nth_error_upd_same _ _ _ _ Hg0)).
+      split.
+      * cbn [set_pend]. unfold with_actor. rewrite Hg1. cbn [reg set_actor]. rewrite Hreg. reflexivity.
+      * intros b. destruct (Nat.eq_dec a b) as [<-|Hab].
+        -- rewrite (get_set_pend_TA_same _ _ _ _ Hg1), Hg. cbn [option_map upd_pend a_path]. rewrite Hpath. reflexivity.
+        -- rewrite get_set_pend_TA_other by exact Hab. unfold get. rewrite Hact. rewrite nth_error_upd_other by exact Hab.
+           fold (get (set_actor s0 a x0) b). rewrite get_set_actor_other by exact Hab. reflexivity.
+    + intros c Hr. apply (rel_handle c s0 a x e s1 ins HI Hr He0 Hg Hc Hpx Hd).
+  - intros scs. unfold init_with. split; [|split].
+    + intros c Hc0 Hlt. rewrite set_exts_actors in Hlt. cbn [actors init_state length] in Hlt. lia.
+    + intros p c Hl. assert (Hr : forall scs0 i s1, reg (set_exts s1 i scs0) = reg s1).
+      { induction scs0 as [|sc scs0 IH]; intros i s1; [reflexivity|]. cbn [set_exts]. rewrite IH.
+        cbn [set_pend]. destruct (nth_error (exts s1) i); reflexivity. }
+      rewrite Hr in Hl. discriminate Hl.
+    + intros x Hx. unfold get in Hx. rewrite set_exts_actors in Hx. cbn [actors init_state nth_error] in Hx. inversion Hx. reflexivity.
+Qed.
+
+(* ------------------------------------------------------------------ children first, the whole subtree *)
+
+Lemma reachable_parent s c xc : reachable s -> get s c = Some xc -> a_parent xc <> None -> c <> 0%nat.
+Proof. intros Hr Hc Hp ->. apply Hp. apply (proj1 (parent_inv s 0%nat xc Hr Hc)). reflexivity. Qed.
+
+(** C06-c: when actor p has been marked Killed, every context whose parent is p has been released
+    (it is Killed, not a zombie waiting, its cleanup has run) and is not registered any more: children first *)
+Theorem children_first s p xp c xc :
+  reachable s -> get s p = Some xp -> a_state xp = Killed ->
+  get s c = Some xc -> a_parent xc = Some p ->
+  released xc /\ alookup (reg s) (a_path xc) <> Some c.
+Proof.
+  intros Hr Hp Hk Hc Hpar.
+  assert (Hc0 : c <> 0%nat) by (apply (reachable_parent s c xc Hr Hc); congruence).
+  destruct (TT_reachable s Hr) as (_ & HT1). destruct (T3_reachable s Hr) as (HT3 & _).
+  assert (Hnr : alookup (reg s) (a_path xc) <> Some c).
+  { intros Hreg. destruct (HT1 c xc p Hc0 Hc Hpar) as (xp' & Hxp' & Himp). rewrite Hp in Hxp'. inversion Hxp'; subst xp'.
+    specialize (Himp Hreg). rewrite (killed_no_children s p xp Hr Hp Hk) in Himp. discriminate Himp. }
+  split; [|exact Hnr].
+  destruct (HT3 c Hc0 (get_lt _ _ _ Hc)) as [(x' & Hx' & Hl)|(x' & Hx' & Hrel)].
+  - rewrite Hc in Hx'. inversion Hx'; subst x'. contradiction.
+  - rewrite Hc in Hx'. inversion Hx'; subst x'. exact Hrel.
+Qed.
+
+(** descendants: [c] is below [p] in the parent relation *)
+Inductive below (s : state) (p : aid) : aid -> Prop :=
+| below_child c xc : get s c = Some xc -> a_parent xc = Some p -> below s p c
+| below_step c d xd : below s p c -> get s d = Some xd -> a_parent xd = Some c -> below s p d.
+
+(** the whole subtree: when p is Killed every descendant is released and unregistered *)
+Theorem subtree_terminated s p xp d :
+  reachable s -> get s p = Some xp -> a_state xp = Killed -> below s p d ->
+  exists xd, get s d = Some xd /\ released xd /\ alookup (reg s) (a_path xd) <> Some d.
+Proof.
+  intros Hr Hp Hk Hb. induction Hb as [c xc Hc Hpar|c d xd Hb IH Hd Hpar].
+  - exists xc. split; [exact Hc|]. apply (children_first s p xp c xc Hr Hp Hk Hc Hpar).
+  - destruct IH as (xc & Hc & (Hkc & _) & _). exists xd. split; [exact Hd|].
+    apply (children_first s c xc d xd Hr Hc Hkc Hd Hpar).
+Qed.
+
+(** a registered actor is in its parent's children map (the parent exists) *)
+Theorem registered_in_parent s c xc p :
+  reachable s -> get s c = Some xc -> a_parent xc = Some p -> alookup (reg s) (a_path xc) = Some c ->
+  exists xp, get s p = Some xp /\ alookup (a_children xp) (a_path xc) = Some c.
+Proof.
+  intros Hr Hc Hpar Hreg.
+  assert (Hc0 : c <> 0%nat) by (apply (reachable_parent s c xc Hr Hc); congruence).
+  destruct (TT_reachable s Hr) as (_ & HT1). destruct (HT1 c xc p Hc0 Hc Hpar) as (xp & Hxp & Himp). exists xp. auto.
+Qed.
+
+(** every context but the root is registered or released *)
+Theorem registered_or_released s c xc :
+  reachable s -> get s c = Some xc -> c <> 0%nat -> alookup (reg s) (a_path xc) = Some c \/ released xc.
+Proof.
+  intros Hr Hc Hc0. destruct (T3_reachable s Hr) as (HT3 & _).
+  destruct (HT3 c Hc0 (get_lt _ _ _ Hc)) as [(x' & Hx' & Hl)|(x' & Hx' & Hrel)]; rewrite Hc in Hx'; inversion Hx'; subst x'; auto.
+Qed.
+
+(** an OnKilled naming a registered actor is nowhere outside that actor's own context *)
+Theorem no_early_killed_notice s c xc q y :
+  reachable s -> c <> 0%nat -> get s c = Some xc -> alookup (reg s) (a_path xc) = Some c ->
+  get s q = Some y -> q <> c -> taint c y = false.
+Proof.
+  intros Hr Hc0 Hc Hreg Hq Hqc. destruct (TT_reachable s Hr) as (HT2 & _).
+  destruct (HT2 c) as (C1 & _); [left; split; [exact Hc0|]; exists xc; auto|].
+  specialize (C1 q y Hq). unfold otaint in C1. destruct (Nat.eqb q c) eqn:E; [apply Nat.eqb_eq in E; congruence|exact C1].
+Qed.
